@@ -100,13 +100,27 @@ SCAN_ALLOW = {
 }
 
 
-def destructive_call_sites(reg):
+SPAWNING = {"Popen", "fork", "forkpty", "spawnv", "spawnl", "posix_spawn", "system", "popen", "create_subprocess_exec", "create_subprocess_shell"}
+SPAWN_ALLOW = {
+    "cli/archive.py::create_archive": "tar, started and waited for synchronously by `cond archive` (no task processes exist in that command)",
+    "explorer/": "the explorer runs no tasks",
+    "envs/": "remote environments (feature not covered by the properties)",
+}
+
+
+def spawn_call_sites(reg):
+    return destructive_call_sites(reg, names=SPAWNING, allow=SPAWN_ALLOW, props={"C04", "C09", "C16", "C12", "C07"}, any_base=True)
+
+
+def destructive_call_sites(reg, names=None, allow=None, props=None, any_base=False):
     import ast as _ast
+    names = names or DESTRUCTIVE
+    allow = allow if allow is not None else SCAN_ALLOW
     src_root = os.environ.get("PYVC_REPO_SRC", "/repo/src/conductor")
     under, outside, allowed = [], [], []
     # under contract FOR a file-system safety property (the call-site preconditions of rmtree / copytree / move / unlink
     # are obligations of these properties only)
-    FS_PROPS = {"C08", "C11", "C12", "C13", "C18"}
+    FS_PROPS = props or {"C08", "C11", "C12", "C13", "C18"}
     contracted = {c.target for c in reg.contracts.values() if not c.extern and not c.target.startswith("ext::") and (FS_PROPS & set(c.all_props()))}
     for dirpath, _dirs, files in os.walk(src_root):
         for fn in files:
@@ -124,13 +138,15 @@ def destructive_call_sites(reg):
                     q = qual
                     if isinstance(ch, (_ast.FunctionDef, _ast.AsyncFunctionDef, _ast.ClassDef)):
                         q = (qual + "." if qual else "") + ch.name
-                    if isinstance(ch, _ast.Call) and isinstance(ch.func, _ast.Attribute) and ch.func.attr in DESTRUCTIVE:
+                    if isinstance(ch, _ast.Call) and isinstance(ch.func, _ast.Attribute) and ch.func.attr in names:
                         base = _ast.unparse(ch.func.value)
-                        if ch.func.attr in ("replace", "copy", "remove", "move") and base not in ("shutil", "os"):
+                        if any_base and ch.func.attr in ("system", "popen", "fork", "forkpty", "spawnv", "spawnl", "posix_spawn") and base != "os":
+                            pass        # platform.system() ...
+                        elif not any_base and ch.func.attr in ("replace", "copy", "remove", "move") and base not in ("shutil", "os"):
                             pass        # str.replace / dict.copy / list.remove ...
                         else:
                             site = {"function": "%s::%s" % (rel, qual or "<module>"), "call": "%s.%s" % (base, ch.func.attr), "line": ch.lineno}
-                            why = next((w for k, w in SCAN_ALLOW.items() if site["function"].startswith(k) or rel.startswith(k)), None)
+                            why = next((w for k, w in allow.items() if site["function"].startswith(k) or rel.startswith(k)), None)
                             if site["function"] in contracted or any(site["function"].startswith(t + ".") for t in contracted):
                                 under.append(site)
                             elif why:
@@ -297,6 +313,13 @@ def main():
         scan = destructive_call_sites(reg)
         for site in scan["outside_contract"]:
             undecided.append({"function": site["function"], "reason": "destructive file-system call `%s` (line %d) in a function that is not under contract for a file-system safety property" % (site["call"], site["line"])})
+    spawn_scan = None
+    if prop in ("C04", "C09", "C16") and not args.no_proof:
+        # every task process is started by RunTaskExecutable.start_execution (under contract): any other asynchronous spawn site
+        # would be outside the slot / SIGCHLD / abort arguments
+        spawn_scan = spawn_call_sites(reg)
+        for site in spawn_scan["outside_contract"]:
+            undecided.append({"function": site["function"], "reason": "process spawn `%s` (line %d) in a function that is not under contract for a process property" % (site["call"], site["line"])})
     t_ded = time.time() - t_start
     # ------------------------------------------------------------------ 2. concrete part
     rt_docs = []
@@ -438,6 +461,7 @@ def main():
         "ghost_assumes_in_sidecar": sorted(set(ghost_assumes)),
         "second_solver": locals().get("second", {}),
         "destructive_call_site_scan": scan,
+        "process_spawn_site_scan": spawn_scan,
         "a_plan_link_planner_post_equals_executor_pre": locals().get("plan_link"),
         "extraction_drops": "docstrings, comments, type annotations (used only to choose sorts), print_* cosmetics; `assert` statements become obligations",
     }
